@@ -843,3 +843,18 @@ def seeded_self_test(pid):
         json.dump(ev, open(path, "w"), indent=1)
     except Exception as e:      # pragma: no cover
         print("could not add the seeded self-test to the evidence file:", e)
+
+
+def run_conformance(pid):
+    """thorough tier: tools/conform.py (library contracts vs. installed libraries); the counts go into the evidence"""
+    p = subprocess.run([PY, os.path.join(ROOT, "tools", "conform.py")], capture_output=True, text=True, cwd=ROOT)
+    line = [l for l in p.stdout.splitlines() if l.startswith("conformance statements")]
+    path = os.path.join(EVID_DIR, f"{pid}.json")
+    try:
+        ev = json.load(open(path))
+        ev["coverage"]["library_contract_conformance"] = {"summary": line[-1] if line else p.stdout[-300:], "exit": p.returncode}
+        json.dump(ev, open(path, "w"), indent=1)
+    except Exception:
+        pass
+    print("CONFORMANCE", line[-1] if line else "(no output)")
+    return p.returncode != 0
